@@ -179,6 +179,37 @@ def main():
         if len(serde_fields) < 5:
             missing.append("RawSourceMap(fields)")
 
+    # (C01-C03) serde table of RawSection (the entries of `sections`), and the literals the encoder /
+    # decoder use: `version: Some(N)` in every as_raw_sourcemap, the "<invalid>" stand-in for a non-string `file`
+    enc = src("encoder.rs")
+    rsec = find("RawSection", jt, r"pub struct RawSection\s*\{(.*?)\n\}")
+    section_fields = None
+    if rsec is not None:
+        section_fields = []
+        attrs = ""
+        for line in rsec.splitlines():
+            s = line.strip()
+            if s.startswith("#["):
+                attrs += s
+            elif s.startswith("//") or not s:
+                continue
+            else:
+                m = re.match(r"pub(?:\(crate\))?\s+(\w+)\s*:", s)
+                if m:
+                    field = m.group(1)
+                    rn = re.search(r'rename\s*=\s*"([^"]+)"', attrs)
+                    key = rn.group(1) if rn else field
+                    skip = bool(re.search(r'skip_serializing_if\s*=\s*"Option::is_none"', attrs))
+                    section_fields.append((field, key, skip))
+                attrs = ""
+        if len(section_fields) < 2:
+            missing.append("RawSection(fields)")
+    enc_versions = [int(x) for x in find("encoder version", enc, r"version\s*:\s*Some\((\d+)\)", all_=True)]
+    invalid_lits = find("file <invalid>", dec, r'_\s*=>\s*"([^"]*)"\.into\(\)', all_=True)
+    invalid_lits = [rust_str(x) for x in invalid_lits if x]
+    if not invalid_lits:
+        missing.append("file <invalid> literal")
+
     # C18: serde view of MinimalRawSourceMap (what is_sourcemap parses): (rust field, JSON key)
     mrsm = find("MinimalRawSourceMap", jt, r"pub struct MinimalRawSourceMap\s*\{(.*?)\n\}")
     minimal_fields = None
@@ -235,6 +266,14 @@ def main():
     L.append("def serdeFields : List (String × List Nat × Bool) := [")
     L.append(",\n".join('  ("%s", %s, %s)' % (f, lean_bytes(k.encode()), "true" if s else "false") for f, k, s in serde_fields))
     L.append("]")
+    L.append("/-- serde view of `RawSection` (jsontypes.rs): (rust field, JSON key as bytes, skipped when None). -/")
+    L.append("def serdeSectionFields : List (String × List Nat × Bool) := [")
+    L.append(",\n".join('  ("%s", %s, %s)' % (f, lean_bytes(k.encode()), "true" if s else "false") for f, k, s in section_fields))
+    L.append("]")
+    L.append("/-- the `version: Some(N)` literals of the `as_raw_sourcemap` impls (encoder.rs), in source order (regular, index). -/")
+    L.append("def encoderVersions : List Nat := [" + ", ".join(str(x) for x in enc_versions) + "]")
+    L.append("/-- stand-ins the decoder uses for a `file` value that is not a string (decoder.rs), in source order (regular, index). -/")
+    L.append("def invalidFile : List (List Nat) := [" + ", ".join(lean_bytes(x) for x in invalid_lits) + "]")
     L.append("/-- C18: `serdeFields` with the rust field name as bytes: (rust field, JSON key, skipped when None). -/")
     L.append("def rawFieldsB : List (List Nat × List Nat × Bool) := [")
     L.append(",\n".join('  (%s, %s, %s)' % (lean_bytes(f.encode()), lean_bytes(k.encode()), "true" if s else "false") for f, k, s in serde_fields))
